@@ -58,6 +58,7 @@ type evGen struct {
 	inFn    bool // inside a lambda / defun body
 	inDefun bool // inside a defun body
 	noBare  bool // variables are referenced as (vtr v), never as a bare symbol (C01 finding dlambda.in-*)
+	eager   bool // inside a form that slip compiles early in another scope (step forms of do / do*)
 	held    [evNMutex]bool
 	trn     int
 	iter    int // product of the iteration bounds of the enclosing loops
@@ -405,7 +406,7 @@ func (g *evGen) intExpr(d int) string {
 		p := g.fresh("p")
 		arg := g.sub("dlambda.arg", func() string { return g.expr(tI, d-1) })
 		savedNB := g.noBare
-		if g.inFn && (g.avoid("dlambda.in-defun", "c01") || g.avoid("dlambda.in-lambda", "c01")) {
+		if (g.inFn || g.eager) && (g.avoid("dlambda.in-defun", "c01") || g.avoid("dlambda.in-lambda", "c01") || g.avoid("dlambda.in-do-step", "c01")) {
 			// inside a function body the direct call is compiled eagerly in an empty scope and a bare
 			// free variable as a body form becomes an unbound global (C01 findings): avoid bare symbols
 			g.noBare = true
@@ -751,7 +752,10 @@ func (g *evGen) loopExpr(d int, asStmt bool) string {
 	vi, va := gvar{name: i, typ: tI, ro: true}, gvar{name: a, typ: tI, ro: true}
 	var stepA, test, res, body string
 	g.withVars([]gvar{vi, va}, func() string {
+		savedEager := g.eager
+		g.eager = true // step forms are compiled when the loop is set up, outside the loop's scope
 		stepA = g.sub(form+".step", func() string { return g.expr(tI, d-1) })
+		g.eager = savedEager
 		test = g.sub(form+".test", func() string { return g.wrap(fmt.Sprintf("(>= %s %d)", i, count)) })
 		res = g.sub(form+".result", func() string { return g.expr(tI, d-1) })
 		body = bodyStmt(form, nil)
